@@ -178,7 +178,7 @@ func e2eInjectWorker(args []string) error {
 	// target peer: set up the requested state with ordinary (recorded, fully judged) steps
 	setup := func(state int) uint64 {
 		// 0 no association, 1 associated, 2 session established, 3 session modified, 4 session deleted, 5 association released,
-		// 6 session emptied (only the session messages are injected in this state)
+		// 6 session emptied, 7 session with 13 PDRs (only the session messages are injected in these states)
 		if state == 0 {
 			return 0
 		}
@@ -198,6 +198,10 @@ func e2eInjectWorker(args []string) error {
 		ue++
 
 		r := simpleSession(cp, ue, 1)
+		if state == 7 { // a large session: 13 PDRs
+			r = simpleSession(cp, ue, 12)
+		}
+
 		r.CQER = []pfcpx.QER{{ID: 1, QFI: 9, ULMBR: 1000, DLMBR: 2000, ULGBR: 100, DLGBR: 200}, {ID: 2, QFI: 9, ULMBR: 5000, DLMBR: 6000, NoGBR: true}}
 
 		for i := range r.CPDR {
@@ -217,6 +221,10 @@ func e2eInjectWorker(args []string) error {
 
 		if state == 4 {
 			w.Del("t", &e2e.SessReq{Hdr: up})
+		}
+
+		if state == 7 {
+			return up // (established below with more rules than the agent's lists are created with room for)
 		}
 
 		if state == 6 {
@@ -302,7 +310,7 @@ func e2eInjectWorker(args []string) error {
 	// (1) every single IE mutation of every message type, in every requested state
 	for _, state := range p.States {
 		for _, typ := range injectTypes {
-			if state == 6 && typ != "mod" && typ != "del" {
+			if state >= 6 && typ != "mod" && typ != "del" {
 				continue
 			}
 
@@ -333,6 +341,28 @@ func e2eInjectWorker(args []string) error {
 
 					sum.Stats["single_"+kind]++
 				}
+			}
+
+			// a well-formed PFD Management Request that names an application twice, with another one in between
+			if typ == "pfd" && state >= 1 && state <= 3 && mine() {
+				what := fmt.Sprintf("state=%d msg=pfd repeated application id", state)
+
+				if err := runCase(state, what, func(up uint64) []byte {
+					mk := func(id, flow string) *ie.IE {
+						return ie.NewApplicationIDsPFDs(ie.NewApplicationID(id), ie.NewPFDContext(ie.NewPFDContents(flow, "", "", "", "", nil, nil, nil)))
+					}
+					m := message.NewPFDManagementRequest(tp.NextSeq(), mk("app1", "permit out ip from 10.1.0.0/16 to assigned"),
+						mk("app2", "permit out udp from any 53 to assigned"), mk("app1", "permit out tcp from any 443 to assigned"))
+					b := make([]byte, m.MarshalLen())
+					_ = m.MarshalTo(b)
+
+					return b
+				}); err != nil {
+					sum.Err = err.Error()
+					return err
+				}
+
+				sum.Stats["pfd_repeated_id"]++
 			}
 
 			// the unmutated message with a wrong header (S flag / SEID) and the flow-description variants
@@ -501,12 +531,12 @@ func C01(c *core.Ctx) {
 	c.Assume("IE trees are mutated independently of go-pfcp's message structs and re-encoded with consistent outer lengths; byte-level garbage is generated by the harness")
 
 	nshards := 12
-	states := []int{2, 0, 6}
+	states := []int{2, 0, 6, 7}
 	garbage, pairs := 40, 15
 
 	if c.Thorough() {
 		nshards = 14
-		states = []int{0, 1, 2, 3, 4, 5, 6}
+		states = []int{0, 1, 2, 3, 4, 5, 6, 7}
 		garbage, pairs = 1500, 400
 	}
 
